@@ -242,6 +242,9 @@ def judge_exec(e):
         elif e.c_current.startswith("EXCEPTION"):
             bad.append(("current", "times_considered=%d means 'no activity' for the application; get_current_transition() "
                         "throws on the checker side: %s" % (e.times, e.c_current)))
+        elif e.c_current not in ("NONE", "-"):
+            bad.append(("current", "times_considered=%d means 'no activity' for the application, the checker takes [%s] as "
+                        "the current sub-transition" % (e.times, e.c_current)))
     # what the program asked for
     exp = EXPANSION.get(e.op)
     if e.op in ("M", "m"):
